@@ -1024,7 +1024,12 @@ func (c *Conn) parseReturn(ret rpccp.Return, called [][]capnp.PipelineOp) parsed
 
 		var embargoCaps uintSet
 		var disembargoes []senderLoopback
-		mtab := ret.Message().CapTable
+		var mtab []*capnp.Client
+		if m := ret.Message(); m != nil {
+			// (A Return whose pointer in the Message union is null reads
+			// as an all-default Return without a message.)
+			mtab = m.CapTable
+		}
 		for _, xform := range called {
 			p2, _ := capnp.Transform(content, xform)
 			iface := p2.Interface()
